@@ -244,9 +244,8 @@ func New() *Otto {
 	}
 	o.runtime.otto = o
 	o.runtime.traceLimit = 10
-	if err := o.Set("console", o.runtime.newConsole()); err != nil {
-		panic(err)
-	}
+	// Like every other built-in of the global object: writable, not enumerable, configurable.
+	o.runtime.globalObject.defineProperty("console", objectValue(o.runtime.newConsole()), 0o101, false)
 
 	registry.Apply(func(entry registry.Entry) {
 		if _, err := o.Run(entry.Source()); err != nil {
